@@ -26,7 +26,7 @@ def tol_group(g, out, eps):
     return c
 
 
-def laws(pp, torch, g, X, a, dtype):
+def laws(pp, torch, g, X, a, dtype, tail=()):
     """the defining identities on the implementation; returns description of the first failure"""
     eps = float(torch.finfo(dtype).eps)
     Xg = pp.LieTensor(torch.tensor(X, dtype=dtype), ltype=getattr(pp, g + '_type'))
@@ -57,6 +57,16 @@ def laws(pp, torch, g, X, a, dtype):
                 close(Xg + al, al.Exp() @ Xg, 'X + a != Exp(a)@X')):
         if why:
             return why
+    if tail:
+        # components beyond the manifold dimension are ignored by +, pp.add and add_
+        wide = torch.tensor(list(a) + list(tail), dtype=dtype)
+        ref = al.Exp() @ Xg
+        Xc = pp.LieTensor(torch.tensor(X, dtype=dtype), ltype=getattr(pp, g + '_type'))
+        for why in (close(Xg + wide, ref, 'X + (a ++ %d extra components) != Exp(a)@X' % len(tail)),
+                    close(pp.add(Xg, wide), ref, 'pp.add(X, a ++ extra) != Exp(a)@X'),
+                    close(Xc.add_(wide), ref, 'X.add_(a ++ extra) != Exp(a)@X')):
+            if why:
+                return why
     return None
 
 
@@ -170,6 +180,40 @@ def run(ctx):
             if fr(out.tensor()) != exp or out.ltype != xl.ltype:
                 ctx.violation('algebra-add:%s' % alg, '%s + tensor is not plain addition of the first %d components: %s + %s -> %s' % (alg, k, x, other, out.tensor().tolist()),
                               dict(kind='algadd', g=g, x=x, other=other))
+    # ---- histories on ONE object: an op result must depend on the CURRENT value of X only (no state kept on the
+    #      LieTensor across calls): op(X), modify X in place, op(X) again == op(fresh copy of X)
+    for g in GROUPS:
+        alg = ALGS[GROUPS.index(g)]
+        at = getattr(pp, alg + '_type')
+        for t in range(ctx.scale(6, 40)):
+            dtype = torch.float64 if t % 2 == 0 else torch.float32
+            dname = 'float64' if t % 2 == 0 else 'float32'
+            Xg = pp.LieTensor(torch.tensor([generic_elt(rng, g, torch, dtype), generic_elt(rng, g, torch, dtype)], dtype=dtype), ltype=getattr(pp, g + '_type'))
+            a = pp.LieTensor(torch.tensor([[rng.uniform(-1, 1) for _ in range(ADIM[g])] for _ in range(2)], dtype=dtype), ltype=at)
+            d = torch.tensor([[rng.uniform(-1, 1) for _ in range(ADIM[g])] for _ in range(2)], dtype=dtype)
+            how = ['add_', 'setitem', 'copy_'][t % 3]
+            ops = {'Adj': lambda X: X.Adj(a).tensor(), 'AdjT': lambda X: X.AdjT(a).tensor(), 'Jinvp': lambda X: X.Jinvp(a).tensor(),
+                   'Retr': lambda X: X.Retr(a).tensor(), 'add': lambda X: (X + a).tensor(), 'matrix': lambda X: X.matrix(), 'Log': lambda X: X.Log().tensor()}
+            for name, f in ops.items():
+                f(Xg)
+            if how == 'add_':
+                Xg.add_(d)
+            elif how == 'setitem':
+                Xg[1] = pp.LieTensor(torch.tensor(generic_elt(rng, g, torch, dtype), dtype=dtype), ltype=getattr(pp, g + '_type'))
+            else:
+                Xg.copy_(pp.LieTensor(torch.tensor([generic_elt(rng, g, torch, dtype), generic_elt(rng, g, torch, dtype)], dtype=dtype), ltype=getattr(pp, g + '_type')))
+            fresh = pp.LieTensor(Xg.tensor().clone(), ltype=getattr(pp, g + '_type'))
+            ctx.case((g, 'stale', how, t), branch='%s-history-%s' % (g, how))
+            for name, f in ops.items():
+                r1, r2 = f(Xg), f(fresh)
+                if not torch.equal(r1, r2):
+                    X1, a1 = [float(v) for v in Xg.tensor()[1].tolist()], [float(v) for v in a.tensor()[1].tolist()]
+                    why = laws(pp, torch, g, X1, a1, dtype) or ''
+                    ctx.violation('stale-state:%s:%s' % (g, name), '%s %s: after %s(X); X modified in place by %s; %s(X) differs from %s on a fresh LieTensor holding the same values by %.3g%s'
+                                  % (g, dname, name, how, name, name, float((r1 - r2).abs().max()), ('; on the modified object: ' + why) if why else ''),
+                                  dict(kind='stale', g=g, dtype=dname, how=how, op=name, X0=[[float(v) for v in r] for r in fresh.tensor().tolist()],
+                                       a=[[float(v) for v in r] for r in a.tensor().tolist()], d=[[float(v) for v in r] for r in d.tolist()]))
+                    break
     # ---- search
     for i in sorted(set(i for i, _ in r['bad'])):
         m = meta[i]
@@ -186,7 +230,7 @@ def replay(ctx, c):
     import torch
     dtype = torch.float64 if c.get('dtype', 'float64') == 'float64' else torch.float32
     if c['kind'] == 'grp':
-        return laws(pp, torch, c['g'], c['X'], c['a'], dtype)
+        return laws(pp, torch, c['g'], c['X'], c['a'], dtype, tail=c.get('tail') or ())
     if c['kind'] == 'algadd':
         alg = ALGS[GROUPS.index(c['g'])]
         k = ADIM[c['g']]
@@ -206,6 +250,21 @@ def replay(ctx, c):
         tol = 2e-5 * max(1.0, float(fd.abs().max())) + (4 * xi ** 6 if g == 'Sim3' else 0.0)
         d = float((fd - got).abs().max())
         return 'Jinvp differs from the first-order change of Log(Exp(tau)@X) by %.3g (tolerance %.3g)' % (d, tol) if d > tol else None
+    if c['kind'] == 'stale':
+        g = c['g']
+        at = getattr(pp, ALGS[GROUPS.index(g)] + '_type')
+        gt = getattr(pp, g + '_type')
+        a = pp.LieTensor(torch.tensor(c['a'], dtype=dtype), ltype=at)
+        f = {'Adj': lambda X: X.Adj(a).tensor(), 'AdjT': lambda X: X.AdjT(a).tensor(), 'Jinvp': lambda X: X.Jinvp(a).tensor(),
+             'Retr': lambda X: X.Retr(a).tensor(), 'add': lambda X: (X + a).tensor(), 'matrix': lambda X: X.matrix(), 'Log': lambda X: X.Log().tensor()}[c['op']]
+        # same history: op on some X, overwrite X in place with X0, op again, compare with a fresh object holding X0
+        Xg = pp.LieTensor(torch.tensor(c['X0'], dtype=dtype), ltype=gt)
+        Xg = (pp.LieTensor(torch.tensor(c['d'], dtype=dtype), ltype=at).Exp() @ Xg)
+        f(Xg)
+        Xg.copy_(pp.LieTensor(torch.tensor(c['X0'], dtype=dtype), ltype=gt))
+        fresh = pp.LieTensor(torch.tensor(c['X0'], dtype=dtype), ltype=gt)
+        r1, r2 = f(Xg), f(fresh)
+        return None if torch.equal(r1, r2) else '%s(X) after an in-place update of X differs from %s on a fresh LieTensor with the same values by %.3g' % (c['op'], c['op'], float((r1 - r2).abs().max()))
     if c['kind'] == 'jr':
         x = torch.tensor(c['X'], dtype=dtype)
         J = pp.so3(x).Jr()
